@@ -763,7 +763,7 @@ func init() {
 		"runtime.SetFinalizer": func(e *Exec, th *Thread, caller *Frame, site ssa.Instruction, args []Value) Value { return nil },
 		"internal/bytealg.IndexByteString": func(e *Exec, th *Thread, caller *Frame, site ssa.Instruction, args []Value) Value {
 			bs, _ := e.strBytes(args[0])
-			return e.indexByte(bs, e.term(args[1]))
+			return e.indexByteFork(caller, site, bs, e.term(args[1]))
 		},
 		"internal/bytealg.IndexByte": func(e *Exec, th *Thread, caller *Frame, site ssa.Instruction, args []Value) Value {
 			sv := args[0].(SliceV)
@@ -772,7 +772,7 @@ func init() {
 			for i := range bs {
 				bs[i] = e.term(e.sliceGet(caller, site, sv, i))
 			}
-			return e.indexByte(bs, e.term(args[1]))
+			return e.indexByteFork(caller, site, bs, e.term(args[1]))
 		},
 		"internal/bytealg.Compare": func(e *Exec, th *Thread, caller *Frame, site ssa.Instruction, args []Value) Value {
 			a := e.bytesOf(caller, site, args[0])
@@ -874,4 +874,14 @@ func (e *Exec) indexByte(bs []*smt.Term, c *smt.Term) Value {
 		res = e.ctx.Ite(e.ctx.Cmp(smt.OEq, bs[i], c), e.mkInt(int64(i)), res)
 	}
 	return res
+}
+
+// indexByteFork: the position is used to navigate data structures, so it is made concrete by a case split.
+func (e *Exec) indexByteFork(fr *Frame, site ssa.Instruction, bs []*smt.Term, c *smt.Term) Value {
+	r := e.indexByte(bs, c).(*smt.Term)
+	if r.IsConst() || len(bs) > 64 {
+		return r
+	}
+	k := e.concretize(fr, site, r, -1, len(bs)-1)
+	return e.mkInt(int64(k))
 }
